@@ -29,7 +29,7 @@ PROPERTY = "C17"
 LEVEL = "fault_enumeration"
 SHARDS = {"quick": 8, "thorough": 16}
 RULE = ("directory trees assembled from file kinds {valid 1.0 XML/JSON/YAML, valid 1.1 XML/JSON/YAML, empty, non-XML "
-        "text, malformed XML, XML of another vocabulary, 1.0 file with an unnamed Section, empty / unparsable / non-odML .json and .yaml} with unique base names: all "
+        "text, malformed XML, XML of another vocabulary, 1.0 file with an unnamed Section, 1.0 XML stored as ISO-8859-1 / UTF-16 with non-ASCII text, empty / unparsable / non-odML .json and .yaml} with unique base names: all "
         "multisets of <= 3 kinds (quick: a seeded sample, thorough: complete) in seeded order and nesting (0-2 "
         "sub-directory levels) x recursive on/off x explicit/implicit output directory x tool {odmlconvert, odmltordf, "
         "FormatConverter for v1_1, odml, xml, turtle, nt, n3, json-ld, pretty-xml, ttl, ntriples, nt11, trig}; "
@@ -42,21 +42,31 @@ ASSUMPTIONS = ["each case runs in the worker process with cwd set to a private s
 REQUIRED_MONITORS = ["inputs-intact", "writes-confined", "outputs-right", "isolates"]
 
 KINDS = ["v10-xml", "v10-json", "v10-yaml", "v11-xml", "v11-json", "v11-yaml", "empty", "text", "malformed-xml",
-         "other-vocabulary", "v10-unnamed-section", "empty-json", "text-json", "empty-yaml", "text-yaml", "yaml-not-odml"]
+         "other-vocabulary", "v10-unnamed-section", "empty-json", "text-json", "empty-yaml", "text-yaml", "yaml-not-odml",
+         "v10-xml-latin1", "v10-xml-utf16"]
 EXT = {"v10-xml": ".xml", "v10-json": ".json", "v10-yaml": ".yaml", "v11-xml": ".xml", "v11-json": ".json",
        "v11-yaml": ".yaml", "empty": ".xml", "text": ".xml", "malformed-xml": ".odml", "other-vocabulary": ".xml",
        "v10-unnamed-section": ".xml", "empty-json": ".json", "text-json": ".json", "empty-yaml": ".yaml",
-       "text-yaml": ".yaml", "yaml-not-odml": ".yaml"}
+       "text-yaml": ".yaml", "yaml-not-odml": ".yaml", "v10-xml-latin1": ".xml", "v10-xml-utf16": ".xml"}
 FC_FORMATS = ["v1_1", "odml", "xml", "turtle", "nt", "n3", "json-ld", "pretty-xml", "ttl", "ntriples", "nt11", "trig"]
 
 
 def make_file(rng, kind_, path):
     """Writes one input file; returns the info the oracle needs."""
     info = {"kind": kind_}
+    encoding = "utf-8"
     if kind_.startswith("v10") and kind_ != "v10-unnamed-section":
         doc = c15_convert.gen_doc(rng, hostile_values=0.0)
         info["abstract"] = doc
-        if kind_ == "v10-xml":
+        if kind_ in ("v10-xml-latin1", "v10-xml-utf16"):
+            # a correctly declared non-UTF-8 file with non-ASCII content (every character exists in Latin-1)
+            doc["author"] = u"J\u00f6rg M\u00fcller"
+            doc["sections"][0]["definition"] = u"Gr\u00f6\u00dfe \u00b5V \u00e9t\u00e9"
+            encoding = "iso-8859-1" if kind_.endswith("latin1") else "utf-16"
+            text = v1map.to_xml(doc).replace('encoding="UTF-8"', 'encoding="%s"' % encoding.upper())
+            info["kind"] = "v10-xml"
+            info["encoding"] = encoding
+        elif kind_ == "v10-xml":
             text = v1map.to_xml(doc)
         elif kind_ == "v10-json":
             text = json.dumps(v1map.to_dict(doc), indent=1)
@@ -99,7 +109,7 @@ def make_file(rng, kind_, path):
         text = '<?xml version="1.0"?>\n<html><body><p>hello</p></body></html>\n'
     else:
         text = '<?xml version="1.0"?>\n<odML version="1"><section><type>t</type></section></odML>\n'
-    with io.open(path, "w", encoding="utf-8") as f:
+    with io.open(path, "w", encoding=encoding) as f:
         f.write(text)
     return info
 
